@@ -90,19 +90,25 @@ Fixpoint unroll (segs : list (nat * nat * obs * obs)) : list (nat * obs * obs) :
   | (c, cap, r, s) :: rest => ramp cap r s 0 c ++ unroll rest
   end.
 
-(* the file the readers see at offset n *)
-Definition file_at (rs after : list logmsg) (n : nat) : bytes := firstn n (encode rs) ++ encode after.
+(* the file the readers see at offset n: the cut file, re-opened for appending by an engine that
+   trims the torn tail first ([trim] = true, repo_patches/C04-4-fix.diff) or not, then the appends *)
+Definition file_at_g (trim : bool) (rs after : list logmsg) (n : nat) : bytes :=
+  match after with
+  | [] => firstn n (encode rs)
+  | _ => (if trim then trim_tail (firstn n (encode rs)) else firstn n (encode rs)) ++ encode after
+  end.
+Definition file_at (rs after : list logmsg) (n : nat) : bytes := file_at_g false rs after n.
 
-Definition buf_at (rs after : list logmsg) (n cap : nat) : buf :=
-  let d := file_at rs after n in
+Definition buf_at_g (trim : bool) (rs after : list logmsg) (n cap : nat) : buf :=
+  let d := file_at_g trim rs after n in
   {| b_data := d; b_stale := repeat 0 (cap - length d) |}.
+Definition buf_at := buf_at_g false.
 
 (* what the property demands at offset n: the completely written records, then the later appends *)
 Definition want (rs after : list logmsg) (n : nat) : lres := LOk (complete_prefix rs n ++ after).
 
-(* 0 holds; 1 a reader panicked; 2 a truncated / padded / invented record (plain truncation);
-   3 records appended after a torn tail are mis-framed (the known finding C04-append-after-torn);
-   9 the case itself is malformed *)
+(* 0 holds; 1 a reader panicked; 2 a truncated / padded / invented / lost record (after plain
+   truncation, or among records appended after the cut); 9 the case itself is malformed *)
 Definition class_at (rs after : list logmsg) (n : nat) (x : nat * obs * obs) : nat :=
   let '(cap, r, s) := x in
   match expand rs after r, expand rs after s with
@@ -110,25 +116,23 @@ Definition class_at (rs after : list logmsg) (n : nat) (x : nat * obs * obs) : n
     if lres_eqb gr (want rs after n) && lres_eqb gs (want rs after n) then 0%nat
     else match gr, gs with
          | LPanic, _ | _, LPanic => 1%nat
-         | _, _ =>
-           match after with
-           | [] => 2%nat
-           | _ :: _ => if Nat.eqb (n - length (encode (complete_prefix rs n))) 0 then 2%nat else 3%nat
-           end
+         | _, _ => 2%nat
          end
   | _, _ => 9%nat
   end.
 
 Definition ok_at (rs after : list logmsg) (n : nat) (x : nat * obs * obs) : bool :=
   let '(cap, r, s) := x in
-  if Nat.ltb cap (length (file_at rs after n)) then false else
-  let b := buf_at rs after n cap in
-  match expand rs after r, expand rs after s with
-  | Some gr, Some gs =>
-    (lres_eqb gr (read_all b) || lres_eqb gr (read_all_fixed b))
-    && (lres_eqb gs (stream_all b) || lres_eqb gs (stream_all_fixed b))
-  | _, _ => false
-  end.
+  let check := fun trim =>
+    if Nat.ltb cap (length (file_at_g trim rs after n)) then false else
+    let b := buf_at_g trim rs after n cap in
+    match expand rs after r, expand rs after s with
+    | Some gr, Some gs =>
+      (lres_eqb gr (read_all b) || lres_eqb gr (read_all_fixed b))
+      && (lres_eqb gs (stream_all b) || lres_eqb gs (stream_all_fixed b))
+    | _, _ => false
+    end in
+  check true || check false.
 
 Fixpoint first_class (rs after : list logmsg) (n : nat) (l : list (nat * obs * obs)) : nat :=
   match l with
@@ -234,8 +238,8 @@ Definition ids_fresh (s : snap) : bool :=
   end.
 
 (* the property on what the implementation showed: the next process starts, and shows the
-   snapshot taken before or after the interrupted operation (4: did not start; 5: neither; 6: neither,
-   at a key-value deletion of an instance delete; 7: an id issued after recovery is already in use) *)
+   snapshot taken before or after the interrupted operation (4: did not start; 5: neither; 7: an id issued after
+   recovery is already in use) *)
 Definition crash_class (ops : list (option pop)) (refs : list snap) (pts : list (bool * nat * nat * nat * snap)) : nat :=
   fold_left (fun (acc : nat) (pt : bool * nat * nat * nat * snap) =>
     if negb (Nat.eqb acc 0) then acc else
@@ -249,12 +253,7 @@ Definition crash_class (ops : list (option pop)) (refs : list snap) (pts : list 
       if negb (ids_fresh s) then 7%nat
       else if is before || is after then 0%nat
       else
-        (* known finding C04-deletedata-not-atomic: process death between the deletion of an
-           instance's key-values and the save of the repo without it *)
-        match nth_error ops (j - 1) with
-        | Some (Some (PDeleteData _ _)) => 6%nat
-        | _ => 5%nat
-        end
+        5%nat
     end) pts 0%nat.
 
 Definition spec_class (c : c04case) : nat :=
